@@ -9,6 +9,7 @@ Oracle: an independent reference implementation of the ordered rule list in docs
 returning the SET of acceptable answers, plus safety invariants that hold regardless of the reference (never another major,
 never a later minor, never a patch-level branch other than the exact one, no exception).
 """
+import hashlib
 import functools
 import os
 import re
@@ -585,7 +586,9 @@ def _git_case(draw, known):
         # the checked update follows an earlier one for a nearby version
         near = [f"{vp[0]}.{vp[1] + 1}.0", f"{vp[0]}.{max(vp[1] - 1, 0)}.{vp[2]}", f"{vp[0] + 1}.0.0", f"{max(vp[0] - 1, 0)}.17.3", f"1.7.3", f"{vp[0]}.{vp[0]}.1"]
         case["first_version"] = draw(st.sampled_from(near))
-    if mode == "git-remote" and vp and "first_version" not in case and draw(st.booleans()):
+    # (hashed ticket: drawn as a boolean the class came up in 3 of 54 remote cases)
+    ticket = int(hashlib.sha256(str(draw(st.integers(0, 2**32))).encode()).hexdigest(), 16)
+    if mode == "git-remote" and vp and "first_version" not in case and ticket % 3 != 0:
         # branches that existed upstream when Rally cloned the repository and have been deleted there since (retired, turned into tags):
         # they are no branches of the repository any more, although they would match the version
         pool = [b for b in (_name(vp[0], vp[1]), _name(vp[0]), _name(vp[0], max(vp[1] - 1, 0)), _name(vp[0], vp[1], vp[2]))
